@@ -379,7 +379,7 @@ func (olds Segment) Rename(news Segment) error {
 
 func (olds Segment) Override(news Segment) error {
 	// remove index segment so we don't have invalid index
-	if err := os.Remove(news.Index); err != nil {
+	if err := os.Remove(news.Index); err != nil && !errors.Is(err, os.ErrNotExist) {
 		return fmt.Errorf("override index delete: %w", err)
 	}
 	verifhook.FS("remove", news.Index, 0, 0)
@@ -401,7 +401,7 @@ func (olds Segment) Override(news Segment) error {
 }
 
 func (s Segment) Remove() error {
-	if err := os.Remove(s.Index); err != nil {
+	if err := os.Remove(s.Index); err != nil && !errors.Is(err, os.ErrNotExist) {
 		return fmt.Errorf("remove index delete: %w", err)
 	}
 	verifhook.FS("remove", s.Index, 0, 0)
